@@ -85,7 +85,7 @@ def main():
             open(p, "w").write(s)
             for prop in props:
                 t0 = time.time()
-                env = dict(os.environ, VERIF_REPO=wt, VERIF_SCRATCH="1")
+                env = dict(os.environ, VERIF_REPO=wt, VERIF_SCRATCH="1", VERIF_BUILD_TAG="mut%d" % os.getpid())
                 r = run("bin/check %s --tier quick" % prop, cwd=V, env=env)
                 viol = [l for l in r.stdout.splitlines() if l.startswith("VIOLATION")]
                 detail = ""
@@ -95,7 +95,7 @@ def main():
                 log.write("MUTANT %s %s rc=%d violations=%d time=%ds %s\n" % (name, prop, r.returncode, len(viol), time.time() - t0, detail))
                 log.flush()
         finally:
-            run("git -C /repo worktree remove --force %s; rm -rf %s" % (wt, wt))
+            run("git -C /repo worktree remove --force %s; rm -rf %s %s" % (wt, wt, os.path.join(V, "build", "alt-mut%d" % os.getpid())))
 
 if __name__ == "__main__":
     main()
